@@ -3,10 +3,12 @@ use crate::engine::Ctx;
 pub mod c01;
 pub mod c04;
 pub mod c15;
+pub mod c16;
 pub mod c17;
 pub mod c18;
 pub mod c34;
 pub mod c35;
+pub mod conv;
 pub mod perp;
 pub mod pure;
 pub mod smoke;
@@ -24,9 +26,13 @@ pub const REGISTRY: &[(&str, fn(&mut Ctx))] = &[
     ("C13", perp::run_c13),
     ("C14", pure::run_c14),
     ("C15", c15::run),
+    ("C16", c16::run),
     ("C17", c17::run),
     ("C18", c18::run),
+    ("C26", conv::run_c26),
+    ("C27", conv::run_c27),
     ("C34", c34::run),
     ("C35", c35::run),
+    ("C43", conv::run_c43),
     ("SMOKE", smoke::run),
 ];
